@@ -166,9 +166,40 @@ def _worker_init(modname):
     signal.signal(signal.SIGALRM, _alarm)
 
 
+def _linecov_start():
+    """Diagnostic only (VERIF_LINECOV=<dir>): which lines of the library a check executes; see tools/linecov_report.py."""
+    import sys
+    root = os.path.join(os.environ.get('COPULAS_REPO', '/repo'), 'copulas')
+    seen = set()
+
+    def local(frame, event, arg):
+        if event == 'line':
+            seen.add((frame.f_code.co_filename, frame.f_lineno))
+        return local
+
+    def tracer(frame, event, arg):
+        if frame.f_code.co_filename.startswith(root):
+            seen.add((frame.f_code.co_filename, frame.f_lineno))
+            return local
+        return None
+    sys.settrace(tracer)
+    return seen, root
+
+
+def _linecov_stop(seen, root):
+    import sys
+    sys.settrace(None)
+    d = os.environ['VERIF_LINECOV']
+    os.makedirs(d, exist_ok=True)
+    with open(os.path.join(d, f'{_MOD.PROPERTY}-{os.getpid()}.txt'), 'w') as f:
+        for fn, ln in sorted(seen):
+            f.write(f'{os.path.relpath(fn, root)}:{ln}\n')
+
+
 def _run_one(case):
     import numpy as np
     signal.alarm(_TIMEOUT[0])
+    cov = _linecov_start() if os.environ.get('VERIF_LINECOV') else None
     try:
         np.random.seed(12345)
         res = _MOD.run_case(case)
@@ -188,6 +219,8 @@ def _run_one(case):
                       traceback=traceback.format_exc()[-1500:])
     finally:
         signal.alarm(0)
+        if cov is not None:
+            _linecov_stop(*cov)
     if res['sample'] is None:
         res['sample'] = jsonable(case)
     return res
